@@ -97,6 +97,29 @@ impl<T: Copy> Block for ChunkSource<T> {
     }
 }
 
+/// Packet source: pushes the given packets, one per work() call, then EOF.
+#[derive(rustradio_macros::Block)]
+#[rustradio(new)]
+struct PktSource {
+    #[rustradio(out)]
+    dst: rustradio::stream::NCWriteStream<Vec<u8>>,
+    pkts: Vec<Vec<u8>>,
+    k: usize,
+}
+impl Block for PktSource {
+    fn work(&mut self) -> Result<BlockRet> {
+        if self.k >= self.pkts.len() {
+            return Ok(BlockRet::EOF);
+        }
+        self.dst.push(self.pkts[self.k].clone(), &[]);
+        self.k += 1;
+        if self.k >= self.pkts.len() {
+            return Ok(BlockRet::EOF);
+        }
+        Ok(BlockRet::Again)
+    }
+}
+
 enum Port {
     C(ReadStream<rustradio::Complex>),
     F(ReadStream<rustradio::Float>),
@@ -164,6 +187,14 @@ fn build(desc: &Value) -> std::result::Result<Built, String> {
                 let chunks: Vec<usize> = n["p"]["chunks"].as_array().map(|a| a.iter().map(|v| v.as_u64().unwrap_or(1) as usize).collect()).unwrap_or_default();
                 let (b, o) = ChunkSource::new(data, chunks, 0, 0);
                 one!(b, Port::F(o))
+            }
+            ("src_pkt", None, None) => {
+                // packets given as [length, fill byte] pairs (long packets without long JSON)
+                let pkts: Vec<Vec<u8>> = n["p"]["pkts"].as_array().ok_or("pkts")?.iter()
+                    .map(|p| { let (l, b) = (p[0].as_u64().unwrap_or(0) as usize, p[1].as_u64().unwrap_or(0) as u8);
+                               (0..l).map(|i| b.wrapping_add((i % 7) as u8)).collect() }).collect();
+                let (b, o) = PktSource::new(pkts, 0);
+                one!(b, Port::Pkt(o))
             }
             ("src_c", None, None) => {
                 let data: Vec<rustradio::Complex> = n["p"]["data"].as_array().ok_or("data")?.iter().map(|v| rustradio::Complex::new(v.as_i64().unwrap_or(0) as rustradio::Float, 0.0)).collect();
